@@ -4,7 +4,7 @@
     <seq> OK | <seq> SKIP <reason> | <seq> DIFF <what> … | <seq> BAD <parse error>
 -/
 import SugarModel.Driver.Transcript
-import SugarModel.Spec.RefMap
+import SugarModel.Spec.RefColl
 import SugarModel.Known
 import SugarModel.Generated.CommandTable
 open Sugar Sugar.Driver
@@ -115,7 +115,7 @@ def toObs : Observed → Spec.Obs
 def specKvVerdict (t : Transition) : String :=
   let a := Spec.abs t.ctx.now t.pre t.ctx.db
   let p := Spec.abs t.ctx.now t.post t.ctx.db
-  match Spec.specKv t.ctx.now a t.cmd with
+  match Spec.specAll t.ctx.now a t.cmd with
   | none => "na"
   | some v =>
     match toObs t.obs with
@@ -196,7 +196,7 @@ partial def loop (h : IO.FS.Stream) (out : IO.FS.Stream) : IO Unit := do
   else
   match parseLine line with
   | .error e => out.putStrLn s!"? BAD {e}"
-  | .ok t => out.putStrLn s!"{t.seq} {verdict t} ## kv={specKvVerdict t} cls={(Known.classifyKv t.ctx t.pre t.cmd).getD "-"} mcls={(Known.classifyMem t.ctx t.pre t.cmd).getD "-"} pure={pureVerdict t} mem={memVerdict t} iso={isoVerdict t} dl={hasDeadline t} shape={shapeOf t}"
+  | .ok t => out.putStrLn s!"{t.seq} {verdict t} ## kv={specKvVerdict t} cls={(Known.classifyAll t.ctx t.pre t.cmd).getD "-"} mcls={(Known.classifyMem t.ctx t.pre t.cmd).getD "-"} pure={pureVerdict t} mem={memVerdict t} iso={isoVerdict t} dl={hasDeadline t} shape={shapeOf t}"
   loop h out
 
 def main : IO Unit := do
